@@ -1,6 +1,488 @@
-From MF Require Import Lib.Base Lib.PyDict Gen.Tokens Model.Case Model.OrderedDict Model.DictUtils Proofs.CaseFacts Proofs.C18.
+(* Property C18 - update / find helpers obey their documented laws.
+   Theorems only; every proof is [exact] of a lemma in Proofs/C18.v (or a
+   concrete witness checked by vm_compute for the refutations).
 
-Theorem C18_delete_root :
-  forall ow d2 d1, delete_flag lower d2 = true -> update lower ow d2 d1 = Ok (VDict DPlain []).
+   The model (Model/DictUtils.v) is instantiated with str.lower (generated case
+   table, idempotence proved in Proofs/CaseFacts.v) and OBJECT_LIST_KEYS
+   (generated from tokens.py).  The vocabulary (lookup, mentions, marker,
+   carries_delete, plain_value, object_list, zip_spec, silent, compatible,
+   spec_find, spec_findall, increasing, get_path ...) is Spec/UpdateSpec.v.
+
+   update is called as [update lower overwrite d2 d1] (patch first); d1 is a
+   dictionary [VDict c1 m] satisfying its representation invariant [wf_items]
+   (no key twice; Mapfile dicts hold lower-case keys), d2 = [VDict c2 p] does
+   not carry __delete__ at the root (that case is C18_update_delete_root) and
+   names each key of d1 at most once ([patch_keys_distinct]: true of every
+   patch whose keys differ after lower-casing).  All laws are about every
+   successful call ([= Ok r]); C18_update_total says the call succeeds whenever
+   the shapes are compatible. *)
+From MF Require Import Lib.Base Lib.PyDict Gen.Tokens Model.Case Model.OrderedDict Model.DictUtils
+  Spec.UpdateSpec Proofs.CaseFacts Proofs.C18.
+
+Notation OLK := OBJECT_LIST_KEYS.
+Notation update' := (update lower).
+Notation lookup' := (lookup lower).
+Notation wf' := (wf_items lower).
+Notation carries' := (carries_delete lower).
+Notation distinct' := (patch_keys_distinct lower).
+Notation mentions' := (mentions lower).
+Notation key_of' := (key_of lower).
+Notation item_value' := (item_value lower).
+Notation find' := (find lower OLK).
+Notation findall' := (findall lower OLK).
+Notation findunique' := (findunique lower).
+Notation findkey' := (findkey lower OLK).
+
+(* ================================================================== update *)
+
+(* update returns d1: a dictionary of d1's own class, still well formed *)
+Theorem C18_update_returns_d1 :
+  forall ow c1 c2 m p r,
+    wf' c1 m -> carries' (VDict c2 p) = false ->
+    update' ow (VDict c2 p) (VDict c1 m) = Ok r ->
+    exists m', r = VDict c1 m' /\ wf' c1 m'.
+Proof. exact (fun ow c1 c2 m p r Hw Hc => update_result_dict lower lower_idem ow c1 c2 m p Hw Hc r). Qed.
+Print Assumptions C18_update_returns_d1.
+
+(* frame: every key of d1 not mentioned in d2 keeps its value ... *)
+Theorem C18_update_frame :
+  forall ow c1 c2 m p r k,
+    wf' c1 m -> carries' (VDict c2 p) = false ->
+    update' ow (VDict c2 p) (VDict c1 m) = Ok r ->
+    mentions' c1 p (key_of' c1 k) = false ->
+    lookup' r k = lookup' (VDict c1 m) k.
+Proof. exact (fun ow c1 c2 m p r k Hw Hc => update_frame lower lower_idem ow c1 c2 m p Hw Hc r k). Qed.
+Print Assumptions C18_update_frame.
+
+(* ... and its position relative to the other unmentioned keys *)
+Theorem C18_update_frame_position :
+  forall ow c1 c2 m p m',
+    wf' c1 m -> carries' (VDict c2 p) = false ->
+    update' ow (VDict c2 p) (VDict c1 m) = Ok (VDict c1 m') ->
+    filter (fun k0 => negb (mentions' c1 p k0)) (keys m') =
+    filter (fun k0 => negb (mentions' c1 p k0)) (keys m).
+Proof. exact (fun ow c1 c2 m p m' Hw Hc => update_frame_order lower lower_idem ow c1 c2 m p Hw Hc m'). Qed.
+Print Assumptions C18_update_frame_position.
+
+(* the complete key order of the result: the keys of d1 that survive, in
+   their old order, then the new keys in the order of the patch *)
+Theorem C18_update_key_order :
+  forall ow c1 c2 m p m',
+    wf' c1 m -> carries' (VDict c2 p) = false -> distinct' c1 p ->
+    update' ow (VDict c2 p) (VDict c1 m) = Ok (VDict c1 m') ->
+    keys m' = filter (fun k0 => od_mem k0 m') (keys m)
+              ++ filter (fun k0 => negb (od_mem k0 m) && od_mem k0 m') (map (key_of' c1) (keys p)).
+Proof. exact (fun ow c1 c2 m p m' Hw Hc Hd => update_key_order lower lower_idem ow c1 c2 m p Hw Hc Hd m'). Qed.
+Print Assumptions C18_update_key_order.
+
+(* frame at every depth: along any path of dictionary keys about which the
+   patch is silent (at some depth it does not mention the next key, and above
+   that it only descends through unflagged dicts) the value is untouched *)
+Theorem C18_update_frame_every_depth :
+  forall ow ks d2 d1 r,
+    silent lower d2 d1 ks -> update' ow d2 d1 = Ok r ->
+    dict_path lower r ks = dict_path lower d1 ks.
+Proof. exact (update_frame_deep lower lower_idem). Qed.
+Print Assumptions C18_update_frame_every_depth.
+
+(* scalar and non-object-list values of d2 replace those of d1 *)
+Theorem C18_update_scalar_replace :
+  forall c1 c2 m p r k v,
+    wf' c1 m -> carries' (VDict c2 p) = false -> distinct' c1 p ->
+    update' true (VDict c2 p) (VDict c1 m) = Ok r ->
+    In (k, v) p -> plain_value v = true -> v <> marker ->
+    lookup' r k = Some v.
+Proof.
+  exact (fun c1 c2 m p r k v Hw Hc Hd HU Hin Hp Hm =>
+           update_scalar_replace lower lower_idem true c1 c2 m p Hw Hc Hd r k v HU Hin Hp Hm eq_refl).
+Qed.
+Print Assumptions C18_update_scalar_replace.
+
+(* a key absent from d1 is added with d2's value, in both overwrite modes *)
+Theorem C18_update_new_key :
+  forall ow c1 c2 m p r k v,
+    wf' c1 m -> carries' (VDict c2 p) = false -> distinct' c1 p ->
+    update' ow (VDict c2 p) (VDict c1 m) = Ok r ->
+    In (k, v) p -> plain_value v = true -> lookup' (VDict c1 m) k = None ->
+    lookup' r k = Some v.
+Proof. exact (fun ow c1 c2 m p r k v Hw Hc Hd => update_new_key lower lower_idem ow c1 c2 m p Hw Hc Hd r k v). Qed.
+Print Assumptions C18_update_new_key.
+
+(* never when overwrite=False and the key exists *)
+Theorem C18_update_no_overwrite :
+  forall c1 c2 m p r k v old,
+    wf' c1 m -> carries' (VDict c2 p) = false -> distinct' c1 p ->
+    update' false (VDict c2 p) (VDict c1 m) = Ok r ->
+    In (k, v) p -> plain_value v = true -> v <> marker ->
+    lookup' (VDict c1 m) k = Some old ->
+    lookup' r k = Some old.
+Proof.
+  exact (fun c1 c2 m p r k v old Hw Hc Hd HU Hin Hp Hm =>
+           update_no_overwrite lower lower_idem false c1 c2 m p Hw Hc Hd r k v old HU Hin Hp Hm eq_refl).
+Qed.
+Print Assumptions C18_update_no_overwrite.
+
+(* nested dicts merge recursively: the value under k afterwards is the update
+   of the old value (or of {} when k was absent) with the nested patch *)
+Theorem C18_update_dict_merge_recursive :
+  forall ow c1 c2 m p r k v,
+    wf' c1 m -> carries' (VDict c2 p) = false -> distinct' c1 p ->
+    update' ow (VDict c2 p) (VDict c1 m) = Ok r ->
+    In (k, v) p -> is_dict v = true -> carries' v = false ->
+    exists sub', update' ow v (old_or (lookup' (VDict c1 m) k) (VDict DPlain [])) = Ok sub' /\
+                 lookup' r k = Some sub'.
+Proof. exact (fun ow c1 c2 m p r k v Hw Hc Hd => update_dict_merge lower lower_idem ow c1 c2 m p Hw Hc Hd r k v). Qed.
+Print Assumptions C18_update_dict_merge_recursive.
+
+(* lists of dicts merge index by index (Spec zip_spec: None skips an index,
+   a flagged dict drops the item, extra items are appended, index order) *)
+Theorem C18_update_list_zip :
+  forall ow c1 c2 m p r k pl orig,
+    wf' c1 m -> carries' (VDict c2 p) = false -> distinct' c1 p ->
+    update' ow (VDict c2 p) (VDict c1 m) = Ok r ->
+    In (k, VList pl) p -> object_list (VList pl) = true ->
+    old_or (lookup' (VDict c1 m) k) (VList []) = VList orig ->
+    exists newl, lookup' r k = Some (VList newl) /\
+                 zip_spec lower (fun n o => ok_of (update' ow n o)) orig pl = Some newl.
+Proof. exact (fun ow c1 c2 m p r k pl orig Hw Hc Hd => update_list_zip lower lower_idem ow c1 c2 m p Hw Hc Hd r k pl orig). Qed.
+Print Assumptions C18_update_list_zip.
+
+(* ... in particular: placeholders for every existing item followed by new
+   objects appends the new objects (each merged into an empty dict) *)
+Theorem C18_update_list_append :
+  forall ow c1 c2 m p r k extras orig,
+    wf' c1 m -> carries' (VDict c2 p) = false -> distinct' c1 p ->
+    update' ow (VDict c2 p) (VDict c1 m) = Ok r ->
+    In (k, VList (repeat VNone (length orig) ++ extras)) p ->
+    Forall (fun n => is_dict n = true /\ carries' n = false) extras ->
+    lookup' (VDict c1 m) k = Some (VList orig) -> Forall (fun o => o <> VNone) orig ->
+    exists news, each_new (update' ow) extras = Ok news /\ lookup' r k = Some (VList (orig ++ news)).
+Proof. exact (fun ow c1 c2 m p r k extras orig => update_list_append lower lower_idem ow c1 c2 m p r k extras orig). Qed.
+Print Assumptions C18_update_list_append.
+
+(* a value '__delete__' removes the corresponding key.
+   FULL STATEMENT (false of the code): after update, lookup r k = None for every
+   entry (k, '__delete__') of the patch.  It fails when d1 does not have the
+   key: the marker string itself is stored (C18_update_delete_key_absent_refuted).
+   Proved under the guard that the key exists in d1. *)
+Theorem C18_update_delete_key :
+  forall ow c1 c2 m p r k,
+    wf' c1 m -> carries' (VDict c2 p) = false -> distinct' c1 p ->
+    update' ow (VDict c2 p) (VDict c1 m) = Ok r ->
+    In (k, marker) p -> lookup' (VDict c1 m) k <> None ->
+    lookup' r k = None.
+Proof. exact (fun ow c1 c2 m p r k Hw Hc Hd => update_delete_key lower lower_idem ow c1 c2 m p Hw Hc Hd r k). Qed.
+Print Assumptions C18_update_delete_key.
+
+Theorem C18_update_delete_key_absent_refuted :
+  exists ow d1 d2 r k,
+    update' ow d2 d1 = Ok r /\ lookup' d2 k = Some marker /\ lookup' d1 k = None /\
+    lookup' r k = Some marker.
+Proof.
+  exists true, (VDict DPlain []), (VDict DPlain [(Str "a", marker)]),
+         (VDict DPlain [(Str "a", marker)]), (Str "a").
+  vm_compute. repeat split; reflexivity.
+Qed.
+Print Assumptions C18_update_delete_key_absent_refuted.
+
+(* a dict carrying __delete__ removes the object (the key necessarily existed:
+   otherwise the call raises KeyError) *)
+Theorem C18_update_delete_object :
+  forall ow c1 c2 m p r k v,
+    wf' c1 m -> carries' (VDict c2 p) = false -> distinct' c1 p ->
+    update' ow (VDict c2 p) (VDict c1 m) = Ok r ->
+    In (k, v) p -> is_dict v = true -> carries' v = true ->
+    lookup' r k = None.
+Proof. exact (fun ow c1 c2 m p r k v Hw Hc Hd => update_delete_object lower lower_idem ow c1 c2 m p Hw Hc Hd r k v). Qed.
+Print Assumptions C18_update_delete_object.
+
+(* ... removes the list item: i placeholders and a flagged dict delete item i *)
+Theorem C18_update_delete_item :
+  forall ow c1 c2 m p r k i n orig,
+    wf' c1 m -> carries' (VDict c2 p) = false -> distinct' c1 p ->
+    update' ow (VDict c2 p) (VDict c1 m) = Ok r ->
+    In (k, VList (repeat VNone i ++ [n])) p -> carries' n = true ->
+    lookup' (VDict c1 m) k = Some (VList orig) -> Forall (fun o => o <> VNone) orig ->
+    (i < length orig)%nat ->
+    lookup' r k = Some (VList (firstn i orig ++ skipn (S i) orig)).
+Proof. exact (fun ow c1 c2 m p r k i n orig => update_delete_item lower lower_idem ow c1 c2 m p r k i n orig). Qed.
+Print Assumptions C18_update_delete_item.
+
+(* ... and at the root: the result is the empty dict *)
+Theorem C18_update_delete_root :
+  forall ow d2 d1, carries' d2 = true -> update' ow d2 d1 = Ok (VDict DPlain []).
 Proof. exact (update_root_delete lower). Qed.
-Print Assumptions C18_delete_root.
+Print Assumptions C18_update_delete_root.
+
+(* within shape compatibility (Spec compatible) update raises nothing *)
+Theorem C18_update_total :
+  forall ow d2 d1, compatible lower d2 d1 -> exists r, update' ow d2 d1 = Ok r.
+Proof. exact (update_total lower lower_idem). Qed.
+Print Assumptions C18_update_total.
+
+(* the two shortcuts taken by the model of the list loop are sound: an empty
+   patch returns d1 itself, and update never returns None for a d1 that is
+   not None *)
+Theorem C18_update_model_shortcuts :
+  (forall ow c d1, update' ow (VDict c []) d1 = Ok d1) /\
+  (forall ow d2 d1 r, update' ow d2 d1 = Ok r -> d1 <> VNone -> r <> VNone).
+Proof. split; [exact (update_empty_patch lower)|exact (update_not_none lower)]. Qed.
+Print Assumptions C18_update_model_shortcuts.
+
+(* ================================================================== find *)
+
+(* find returns the first item whose key equals the value, or None, and leaves
+   the list alone.
+   FULL STATEMENT (false of the code): for every list of dicts,
+     find lst key want = (lst, Ok (spec_find lst key want)),
+   items lacking the key being skipped and left unchanged.  It fails on any
+   item lacking the key (C18_find_lacking_* below).  Proved for lists whose
+   items all have the key, and (laziness) for any list up to the first match. *)
+Theorem C18_find_first :
+  forall lst key want,
+    Forall (fun it => item_value' key it <> None) lst ->
+    find' lst key want = (lst, Ok (spec_find lower lst key want)).
+Proof. exact (fun lst key want => find_loop_present lower OLK lower_idem key want lst). Qed.
+Print Assumptions C18_find_first.
+
+Theorem C18_find_first_stops :
+  forall key want pre it post v,
+    Forall (fun x => exists u, item_value' key x = Some u /\ py_eqb u want = false) pre ->
+    item_value' key it = Some v -> py_eqb v want = true ->
+    find' (pre ++ it :: post) key want = (pre ++ it :: post, Ok it).
+Proof. exact (find_loop_first lower OLK lower_idem). Qed.
+Print Assumptions C18_find_first_stops.
+
+(* what really happens to an item lacking the key: KeyError without a default
+   factory; with one (Mapfile dicts) the key is inserted with a fresh {} / [] *)
+Theorem C18_find_lacking_keyerror :
+  forall key want c s rest,
+    no_factory c = true -> item_value' key (VDict c s) = None ->
+    find' (VDict c s :: rest) key want = (VDict c s :: rest, Err PyKeyError).
+Proof. exact (find_loop_lacking_keyerror lower OLK lower_idem). Qed.
+Print Assumptions C18_find_lacking_keyerror.
+
+Theorem C18_find_lacking_autocreates :
+  forall key want c s rest,
+    no_factory c = false -> item_value' key (VDict c s) = None ->
+    py_eqb (fresh OLK (lower key)) want = false ->
+    find' (VDict c s :: rest) key want =
+      (VDict c (s ++ [(lower key, fresh OLK (lower key))]) :: fst (find' rest key want),
+       snd (find' rest key want)).
+Proof. exact (find_loop_lacking_factory lower OLK lower_idem). Qed.
+Print Assumptions C18_find_lacking_autocreates.
+
+Theorem C18_find_lacking_unchanged_refuted :
+  (exists lst key want lst', find' lst key want = (lst', Ok VNone) /\ lst' <> lst) /\
+  (exists lst key want it, find' lst key want = (lst, Err PyKeyError) /\ spec_find lower lst key want = it /\ it <> VNone).
+Proof.
+  split.
+  - exists [VDict (DCI true) [(Str "name", VStr (Str "a"))]], (Str "group"), (VStr (Str "x")),
+           [VDict (DCI true) [(Str "name", VStr (Str "a")); (Str "group", VDict (DCI false) [])]].
+    split; [vm_compute; reflexivity|discriminate].
+  - exists [VDict DPlain [(Str "a", VInt 1)]; VDict DPlain [(Str "b", VInt 2)]], (Str "b"), (VInt 2),
+           (VDict DPlain [(Str "b", VInt 2)]).
+    split; [vm_compute; reflexivity|split; [vm_compute; reflexivity|discriminate]].
+Qed.
+Print Assumptions C18_find_lacking_unchanged_refuted.
+
+(* ================================================================== findall *)
+
+(* findall returns the items, in list order, whose key equals the value asked
+   for (or is one of the values when a list of values is given).
+   FULL STATEMENT (false of the code): for every list of dicts and every value,
+     findall lst key want = (lst, Ok (spec_findall lst key want)).
+   Refuted four ways below (substring matching, falsy values skipped, TypeError
+   from the in operator, items lacking the key).  Proved on the domain where
+   `item[key] and item[key] in value` means what the text says
+   (Spec findall_in_domain: truthy item value; a list of values asked for, or a
+   string of which the item's string value is not a proper substring). *)
+Theorem C18_findall_filter :
+  forall lst key want,
+    Forall (fun it => exists v, item_value' key it = Some v /\ findall_in_domain want v = true) lst ->
+    findall' lst key want = (lst, Ok (spec_findall lower lst key want)).
+Proof. exact (fun lst key want => findall_loop_in_domain lower OLK lower_idem key want lst). Qed.
+Print Assumptions C18_findall_filter.
+
+Theorem C18_findall_substring_refuted :
+  exists lst key want it v,
+    findall' lst key want = (lst, Ok [it]) /\ item_value' key it = Some v /\ asked want v = false.
+Proof.
+  exists [VDict DPlain [(Str "name", VStr (Str "road"))]], (Str "name"), (VStr (Str "roads")),
+         (VDict DPlain [(Str "name", VStr (Str "road"))]), (VStr (Str "road")).
+  vm_compute. repeat split; reflexivity.
+Qed.
+Print Assumptions C18_findall_substring_refuted.
+
+Theorem C18_findall_falsy_refuted :
+  exists lst key want it v,
+    findall' lst key want = (lst, Ok []) /\ In it lst /\ item_value' key it = Some v /\ asked want v = true.
+Proof.
+  exists [VDict DPlain [(Str "v", VInt 0)]], (Str "v"), (VList [VInt 0; VInt 1]),
+         (VDict DPlain [(Str "v", VInt 0)]), (VInt 0).
+  split; [vm_compute; reflexivity|]. split; [left; reflexivity|]. split; vm_compute; reflexivity.
+Qed.
+Print Assumptions C18_findall_falsy_refuted.
+
+Theorem C18_findall_in_operator_refuted :
+  exists lst key want it v,
+    findall' lst key want = (lst, Err PyTypeError) /\ In it lst /\ item_value' key it = Some v /\ asked want v = true.
+Proof.
+  exists [VDict DPlain [(Str "v", VInt 5)]], (Str "v"), (VInt 5),
+         (VDict DPlain [(Str "v", VInt 5)]), (VInt 5).
+  split; [vm_compute; reflexivity|]. split; [left; reflexivity|]. split; vm_compute; reflexivity.
+Qed.
+Print Assumptions C18_findall_in_operator_refuted.
+
+Theorem C18_findall_lacking_keyerror :
+  forall key want c s rest,
+    no_factory c = true -> item_value' key (VDict c s) = None ->
+    findall' (VDict c s :: rest) key want = (VDict c s :: rest, Err PyKeyError).
+Proof. exact (findall_loop_lacking_keyerror lower OLK lower_idem). Qed.
+Print Assumptions C18_findall_lacking_keyerror.
+
+(* a Mapfile dict lacking the key is skipped in the result (that half of the
+   clause holds) but is changed: the key is inserted *)
+Theorem C18_findall_lacking_skipped_but_changed :
+  forall key want c s rest,
+    no_factory c = false -> item_value' key (VDict c s) = None ->
+    findall' (VDict c s :: rest) key want =
+      (VDict c (s ++ [(lower key, fresh OLK (lower key))]) :: fst (findall' rest key want),
+       snd (findall' rest key want)).
+Proof. exact (findall_loop_lacking_factory lower OLK lower_idem). Qed.
+Print Assumptions C18_findall_lacking_skipped_but_changed.
+
+Theorem C18_findall_lacking_unchanged_refuted :
+  exists lst key want lst', findall' lst key want = (lst', Ok []) /\ lst' <> lst.
+Proof.
+  exists [VDict (DCI true) [(Str "name", VStr (Str "a"))]], (Str "layers"), (VStr (Str "x")),
+         [VDict (DCI true) [(Str "name", VStr (Str "a")); (Str "layers", VList [])]].
+  split; [vm_compute; reflexivity|discriminate].
+Qed.
+Print Assumptions C18_findall_lacking_unchanged_refuted.
+
+(* ================================================================== findunique *)
+
+(* findunique returns the sorted distinct values present: for string values
+   (the documented use) the result is strictly increasing and contains exactly
+   the strings held under the key.  The model of findunique is a function of
+   the list only (.get never creates keys): the list is unchanged. *)
+Theorem C18_findunique_sorted_distinct :
+  forall lst key,
+    Forall (findunique_item_ok lower key) lst ->
+    exists rs, findunique' lst key = Ok (map VStr rs) /\ increasing rs /\
+               forall s, In s rs <-> exists it, In it lst /\ item_value' key it = Some (VStr s).
+Proof. exact (findunique_strings lower). Qed.
+Print Assumptions C18_findunique_sorted_distinct.
+
+(* items lacking the key are skipped (and, findunique being a function of the
+   list, left unchanged) *)
+Theorem C18_findunique_lacking_skipped :
+  forall pre it post key,
+    is_dict it = true -> item_value' key it = None ->
+    findunique' (pre ++ it :: post) key = findunique' (pre ++ post) key.
+Proof. exact (findunique_lacking_skipped lower). Qed.
+Print Assumptions C18_findunique_lacking_skipped.
+
+(* ================================================================== findkey *)
+
+(* findkey returns the element at a key/index path (Spec get_path: dict keys by
+   the dict's own key rule, list indexes as in Python incl. negative ones) and
+   leaves d unchanged, whenever the path exists *)
+Theorem C18_findkey_path :
+  forall path d v, get_path lower d path = Some v -> findkey' d path = (d, Ok v).
+Proof. exact (findkey_path lower OLK lower_idem). Qed.
+Print Assumptions C18_findkey_path.
+
+(* ================================================================== examples *)
+
+(* non-vacuity: a Mapfile layer and a patch with mixed-case keys meet every
+   hypothesis above (well formed, distinct, compatible) and show replacement,
+   recursion, placeholder / deletion / appending in a list, key deletion,
+   a new key, and the untouched key keeping its place *)
+Definition ex_d1 : value :=
+  VDict (DCI true)
+    [(Str "name", VStr (Str "x"));
+     (Str "type", VStr (Str "POINT"));
+     (Str "styles", VList [VDict (DCI true) [(Str "color", VInt 1)]; VDict (DCI true) [(Str "color", VInt 2)]]);
+     (Str "metadata", VDict (DCI true) [(Str "a", VInt 1)]);
+     (Str "old", VInt 0)].
+
+Definition ex_d2 : value :=
+  VDict DPlain
+    [(Str "NAME", VStr (Str "y"));
+     (Str "Styles", VList [VNone; VDict DPlain [(Str "__delete__", VBool true)]; VDict DPlain [(Str "width", VInt 3)]]);
+     (Str "metadata", VDict DPlain [(Str "B", VInt 2)]);
+     (Str "old", marker);
+     (Str "group", VStr (Str "g"))].
+
+Ltac nodup_tac := repeat constructor; cbn; intuition discriminate.
+Ltac wf_tac := split; [nodup_tac|repeat constructor].
+
+Example C18_example_update :
+  update' true ex_d2 ex_d1 =
+    Ok (VDict (DCI true)
+          [(Str "name", VStr (Str "y"));
+           (Str "type", VStr (Str "POINT"));
+           (Str "styles", VList [VDict (DCI true) [(Str "color", VInt 1)]; VDict DPlain [(Str "width", VInt 3)]]);
+           (Str "metadata", VDict (DCI true) [(Str "a", VInt 1); (Str "b", VInt 2)]);
+           (Str "group", VStr (Str "g"))])
+  /\ compatible lower ex_d2 ex_d1
+  /\ silent lower ex_d2 ex_d1 [Str "metadata"; Str "a"]
+  /\ mentions' (DCI true) [(Str "NAME", VNone)] (key_of' (DCI true) (Str "type")) = false.
+Proof.
+  split; [vm_compute; reflexivity|].
+  assert (Hw : wf' (DCI true) [(Str "a", VInt 1)]) by wf_tac.
+  assert (Hwd : wf' (DCI true)
+                    [(Str "name", VStr (Str "x")); (Str "type", VStr (Str "POINT"));
+                     (Str "styles", VList [VDict (DCI true) [(Str "color", VInt 1)]; VDict (DCI true) [(Str "color", VInt 2)]]);
+                     (Str "metadata", VDict (DCI true) [(Str "a", VInt 1)]); (Str "old", VInt 0)]) by wf_tac.
+  assert (Hdd : distinct' (DCI true)
+                    [(Str "NAME", VStr (Str "y"));
+                     (Str "Styles", VList [VNone; VDict DPlain [(Str "__delete__", VBool true)]; VDict DPlain [(Str "width", VInt 3)]]);
+                     (Str "metadata", VDict DPlain [(Str "B", VInt 2)]); (Str "old", marker); (Str "group", VStr (Str "g"))]).
+  { unfold patch_keys_distinct. vm_compute. nodup_tac. }
+  split; [|split; [|vm_compute; reflexivity]].
+  - right. split; [exact Hwd|]. split; [exact Hdd|].
+    cbn [compat_entries]. split; [exact I|]. split.
+    { cbn [compat_entry object_list forallb andb].
+      exists [VDict (DCI true) [(Str "color", VInt 1)]; VDict (DCI true) [(Str "color", VInt 2)]].
+      split; [vm_compute; reflexivity|].
+      cbn [compat_items hd tl none_to_empty]. split; [left; reflexivity|].
+      split; [right; left; vm_compute; reflexivity|].
+      split; [|exact I]. right; right. right.
+      split; [split; [constructor|exact I]|]. split; [unfold patch_keys_distinct; vm_compute; nodup_tac|].
+      cbn [compat_entries compat_entry]. auto. }
+    split.
+    { change (compatible lower (VDict DPlain [(Str "B", VInt 2)]) (VDict (DCI true) [(Str "a", VInt 1)])).
+      right. split; [exact Hw|]. split; [unfold patch_keys_distinct; vm_compute; nodup_tac|].
+      cbn [compat_entries compat_entry]. auto. }
+    exact (conj I (conj I I)).
+  - cbn [silent ex_d1 ex_d2]. split; [exact Hwd|]. split; [exact Hdd|]. split; [vm_compute; reflexivity|].
+    right. exists (Str "metadata"), (VDict DPlain [(Str "B", VInt 2)]), (VDict (DCI true) [(Str "a", VInt 1)]).
+    split; [cbn; tauto|]. split; [reflexivity|]. split; [reflexivity|]. split; [vm_compute; reflexivity|].
+    split; [vm_compute; reflexivity|].
+    cbn [silent]. split; [exact Hw|].
+    split; [unfold patch_keys_distinct; vm_compute; nodup_tac|].
+    split; [vm_compute; reflexivity|]. left. vm_compute. reflexivity.
+Qed.
+
+Example C18_example_find :
+  let layers := [VDict (DCI true) [(Str "name", VStr (Str "l1")); (Str "group", VStr (Str "roads"))];
+                 VDict (DCI true) [(Str "name", VStr (Str "l2")); (Str "group", VStr (Str "rail"))];
+                 VDict (DCI true) [(Str "name", VStr (Str "l3")); (Str "group", VStr (Str "roads"))]] in
+  Forall (fun it => exists v, item_value' (Str "GROUP") it = Some v /\
+                              findall_in_domain (VList [VStr (Str "roads")]) v = true) layers
+  /\ findall' layers (Str "GROUP") (VList [VStr (Str "roads")]) =
+       (layers, Ok [VDict (DCI true) [(Str "name", VStr (Str "l1")); (Str "group", VStr (Str "roads"))];
+                    VDict (DCI true) [(Str "name", VStr (Str "l3")); (Str "group", VStr (Str "roads"))]])
+  /\ find' layers (Str "Name") (VStr (Str "l2")) =
+       (layers, Ok (VDict (DCI true) [(Str "name", VStr (Str "l2")); (Str "group", VStr (Str "rail"))]))
+  /\ findunique' layers (Str "group") = Ok [VStr (Str "rail"); VStr (Str "roads")]
+  /\ findkey' (VDict (DCI true) [(Str "layers", VList layers)]) [PKey (Str "LAYERS"); PIdx (-1)%Z; PKey (Str "name")]
+     = (VDict (DCI true) [(Str "layers", VList layers)], Ok (VStr (Str "l3"))).
+Proof.
+  cbv zeta. split.
+  - repeat constructor; eexists; (split; [vm_compute; reflexivity|vm_compute; reflexivity]).
+  - repeat split; vm_compute; reflexivity.
+Qed.
